@@ -2,19 +2,21 @@
 // statement by statement, into core-only Lean defs over the value vocabulary of lean/GnarkVerif/Model/GoImp.lean.
 //
 // Supported subset (anything else is a fatal error = broken tie T, never a silent skip):
-//   types       int, bool, string, []byte, []T, map[string]T, struct, *struct (as a struct FIELD: Option; as receiver /
-//               fresh `&T{…}` / result: the struct value, passed and returned by value), hash.Hash (abstract), error
-//   statements  x := e, x = e, x.f = e, m[k] = e, `v, ok := m[k]`, `_, err := h.Write(p)`, h.Reset(), copy(dst, src)
-//               (dst must have been `make`d by the statement just before), if / else (with init), return,
-//               `for i := range xs`, `for _, x := range xs` (slices only), `defer <stmt>` at the top level of a function
-//   expressions literals, variables, fields, xs[i], x[:], len, make([]byte, n), make(map[string]T), append(s, x…),
-//               []byte(s), fmt.Errorf(format, err), h.Sum(nil), &local, &T{…}, T{…}, ! - == != < <= > >= + - * && ||
+//
+//	types       int, bool, string, []byte, []T, map[string]T, struct, *struct (as a struct FIELD: Option; as receiver /
+//	            fresh `&T{…}` / result: the struct value, passed and returned by value), hash.Hash (abstract), error
+//	statements  x := e, x = e, x.f = e, m[k] = e, `v, ok := m[k]`, `_, err := h.Write(p)`, h.Reset(), copy(dst, src)
+//	            (dst must have been `make`d by the statement just before), if / else (with init), return,
+//	            `for i := range xs`, `for _, x := range xs` (slices only), `defer <stmt>` at the top level of a function
+//	expressions literals, variables, fields, xs[i], x[:], len, make([]byte, n), make(map[string]T), append(s, x…),
+//	            []byte(s), fmt.Errorf(format, err), h.Sum(nil), &local, &T{…}, T{…}, ! - == != < <= > >= + - * && ||
+//
 // Side conditions that are CHECKED here (see Model/GoImp.lean for the semantics they justify):
-//   * `&x` of a local: not inside a loop and x is not assigned (nor any field of it, nor copy()'d into) by any statement
+//   - `&x` of a local: not inside a loop and x is not assigned (nor any field of it, nor copy()'d into) by any statement
 //     that comes later in the function; no assignment / copy ever goes through a pointer-typed field;
-//   * every `p.f` through an Option pointer p is guarded by `p == nil ||` to its left or by an earlier
+//   - every `p.f` through an Option pointer p is guarded by `p == nil ||` to its left or by an earlier
 //     `if p == nil || … { return }` of the same or an enclosing block, with no assignment to p in between;
-//   * `x = append(y, …)` only with x ≡ y; a local may not shadow a live local; no break / continue / goto / switch.
+//   - `x = append(y, …)` only with x ≡ y; a local may not shadow a live local; no break / continue / goto / switch.
 package main
 
 import (
@@ -321,7 +323,6 @@ func (p *impPkg) structOrder() []string {
 	return out
 }
 
-
 // ---------------------------------------------------------------------------------------------- functions and files
 
 func (p *impPkg) paramType(e ast.Expr) *ity {
@@ -350,6 +351,7 @@ func (p *impPkg) translateFunc(name string) string {
 		f.recv = fd.Recv.List[0].Names[0].Name
 		t := p.paramType(fd.Recv.List[0].Type)
 		f.declare(fd, f.recv, t)
+		f.recvTy = t
 		params = append(params, "("+lname(f.recv)+" : "+p.lty(t, false)+")")
 	}
 	for _, fl := range fd.Type.Params.List {
